@@ -57,6 +57,22 @@ _claim("C14", "Transcript-RNG keying modelled as operations (witness bytes re-ke
        "share no RNG-derived nonce.", _COMMON_NOTE, "Coq proof (keying structure, witness serialisation injective) + fault-model run pairs + log correspondence", "5/C14")
 _claim("C16", "Guards of decoder and verifier modelled in code order; hostile proofs/batches in debug and release builds over two back ends must never panic; model predicts Ok/Err. Partial by nature (panics inside "
        "dependencies are runtime behaviour).", _COMMON_NOTE, "Coq proof (totality of the model's guards) + hostile-input exploration under catch_unwind (debug+release)", "5/C16")
+_claim("C11", "Label layout and chain indexing are a Gallina model; SHAKE256, SHA3-512 and the Ristretto one-way map are re-implemented in Gallina so that the generator BYTES are recomputed inside Coq and compared "
+       "with the implementation (quick: parties 0-3 and all Pedersen points; thorough: all 4103 points), plus recorded digest, pairwise distinctness, table order, capacity independence, racing first use.",
+       "Trusted: Coq kernel + vm_compute + BigZ; Crypto/Keccak.v and Crypto/Ristretto.v model dependencies (validated by byte equality with the Rust crates on every run, not verified); harness gens driver. No axioms.",
+       "Coq proof (label injectivity, table order; distinctness by computation on the finite domain) + byte-exact correspondence with a Gallina hash-to-group derivation", "5/C11")
+_claim("C18", "Purity holds in the model by construction (state-free functions); the once-initialised statics are modelled as a state machine and proved correct under every schedule; histories, request sequences, "
+       "16-thread runs against a single-threaded baseline and fresh-process first-use races are explored on the code. Partial by nature (real schedules are runtime behaviour).",
+       "Trusted: Coq kernel; Model/Once.v is a logical model; OS scheduling; harness thread/history drivers. No axioms.",
+       "Coq proof (once-cell under arbitrary schedules) + schedule / history exploration against a single-threaded baseline", "5/C18")
+_claim("C19", "Recorded 0.4.0 vectors (proof bytes reproduced by the prover, recorded proofs verified and masks recovered, generator bytes) plus fresh configurations where the library prover/verifier are compared "
+       "with the independent Gallina prover/verifier coordinate by coordinate; wire constants (labels, key layout, byte layout) are literals of the model with theorems about them.",
+       _COMMON_NOTE + " STROBE/Blake2b are not re-implemented in Gallina; the recording of the vectors is trusted.",
+       "Coq proof (wire-constant layout) + recorded regression vectors + model-vs-implementation correspondence as independent reference", "5/C19")
+_claim("C20", "Discipline model of secret-holding buffers per code path with the theorem that no un-wiped secret is freed (and the refutation for the unrepaired nonce derivation); an interposing allocator in an "
+       "opt-level-0 build scans every freed block for the literal secrets. Partial by nature (compiler/allocator behaviour is runtime).",
+       "Trusted: Coq kernel; Model/Heap.v is hand-enumerated from the source; allocator harness; zeroize. No axioms.",
+       "Coq proof (wipe-before-free discipline) + allocator interposition exploration", "5/C20")
 CLAIMED["C15"] = dict(
     text="The decoder/encoder model is proved, for every byte string of every length, to accept exactly the encodings of well-formed proofs "
          "(tag 1..6, 5+d+2k elements, k>=1, canonical scalars), to be canonical (decode then encode is the identity) and to round-trip "
